@@ -66,15 +66,14 @@ func c06Call(f func()) (status, msg string) {
 		f()
 		ch <- "ok"
 	}()
-	select {
-	case s := <-ch:
-		if strings.HasPrefix(s, "panic:") {
-			return "panic", s[6:]
-		}
-		return "ok", ""
-	case <-time.After(c06CallTimeout):
+	s, answered := hangWait(ch, c06CallTimeout)
+	if !answered {
 		return "hang", ""
 	}
+	if strings.HasPrefix(s, "panic:") {
+		return "panic", s[6:]
+	}
+	return "ok", ""
 }
 
 // ---------------------------------------------------------------------------
@@ -1097,6 +1096,11 @@ func c06Direct(es []Ev) (term string, human string, hang bool) {
 			human = "built"
 			rec := &Recorder{}
 			status, _ := c06Call(func() { iterator.NewSession(nil, cfg).NewIterator(rec).Iterate(v) })
+			for try := 0; status == "hang" && try < 3; try++ {
+				// the value is finite: on a busy machine the call merely missed the deadline
+				rec = &Recorder{}
+				status, _ = c06Call(func() { iterator.NewSession(nil, cfg).NewIterator(rec).Iterate(v) })
+			}
 			if status == "ok" {
 				iter = cSome(cEvs(rec.Evs))
 			} else {
@@ -1252,7 +1256,14 @@ type c06Gen struct {
 	defd  []string
 	fwd   bool // also produce forward references (list / map value / node child positions)
 	later []string
+	// wide: lists, node children and maps that keep growing after a forward reference was stored in them
+	// (lengths around the capacities a Go slice goes through: 4, 8, 16, 32, 64), several references to one
+	// pending marker, and markers that complete inside the very container that holds the reference
+	wide bool
 }
+
+// container lengths on both sides of every capacity a slice that starts at 4 and doubles goes through
+var c06WideFans = []int{5, 5, 6, 7, 8, 9, 9, 10, 12, 15, 16, 17, 17, 20, 31, 32, 33, 40, 64, 65}
 
 func (q *c06Gen) ts() compact_time.Time {
 	r := q.r
@@ -1377,11 +1388,19 @@ func (q *c06Gen) leaf() []Ev {
 func (q *c06Gen) value(depth int, pos string, inMarked bool) []Ev {
 	r := q.r
 	out := []Ev{}
-	if pos != "top" && pos != "key" && r.Intn(8) == 0 {
+	refOdds := 8
+	if q.wide {
+		refOdds = 5
+	}
+	if pos != "top" && pos != "key" && r.Intn(refOdds) == 0 {
 		if len(q.defd) > 0 && (!q.fwd || r.Intn(2) == 0) {
 			return []Ev{{K: "ref", Data: []byte(q.defd[r.Intn(len(q.defd))])}}
 		}
 		if q.fwd && pos == "elem" {
+			if q.wide && len(q.later) > 0 && r.Intn(3) == 0 {
+				// one more reference to a marker that is still to come
+				return []Ev{{K: "ref", Data: []byte(q.later[r.Intn(len(q.later))])}}
+			}
 			q.ids++
 			id := fmt.Sprintf("f%d", q.ids)
 			q.later = append(q.later, id)
@@ -1403,6 +1422,11 @@ func (q *c06Gen) value(depth int, pos string, inMarked bool) []Ev {
 		kind := r.Intn(3)
 		if len(q.recs) > 0 && r.Intn(4) == 0 {
 			kind = 3
+		}
+		if q.wide && kind != 3 && depth <= 1 && r.Intn(2) == 0 {
+			// a long container of (mostly) leaves
+			fan = c06WideFans[r.Intn(len(c06WideFans))]
+			depth += 2
 		}
 		switch kind {
 		case 3:
@@ -1491,12 +1515,25 @@ func (q *c06Gen) document() []Ev {
 		// give the forward references their targets: wrap everything in a list that ends with the marked values
 		wrapped := []Ev{{K: "l"}}
 		wrapped = append(wrapped, body...)
+		if q.wide && body[0].K == "l" && q.r.Intn(2) == 0 {
+			// ... or let the top-level list itself end with them: its own forward references are then
+			// completed while it is still being filled
+			wrapped = append([]Ev{}, body[:len(body)-1]...)
+		}
 		for _, id := range q.later {
 			wrapped = append(wrapped, Ev{K: "mk", Data: []byte(id)})
-			if q.r.Intn(2) == 0 {
+			switch q.r.Intn(2) {
+			case 0:
 				wrapped = append(wrapped, q.leaf()...)
-			} else {
-				wrapped = append(wrapped, Ev{K: "l"}, Ev{K: "pi", N: uint64(q.r.Intn(9))}, Ev{K: "e"})
+			default:
+				if q.wide && q.r.Intn(3) == 0 {
+					wrapped = append(wrapped, Ev{K: "m"}, Ev{K: "pi", N: uint64(q.r.Intn(9))}, Ev{K: "t"}, Ev{K: "e"})
+				} else {
+					wrapped = append(wrapped, Ev{K: "l"}, Ev{K: "pi", N: uint64(q.r.Intn(9))}, Ev{K: "e"})
+				}
+			}
+			if q.wide && q.r.Intn(4) == 0 {
+				wrapped = append(wrapped, Ev{K: "ref", Data: []byte(id)}) // and a backward reference to it
 			}
 		}
 		body = append(wrapped, Ev{K: "e"})
@@ -1605,6 +1642,147 @@ func c06Directed() []c06Input {
 	return in
 }
 
+// c06GrowthInputs: a forward reference is stored in a container (list, node children, map value, record
+// field), the container then receives `post` more elements, and only then the marker completes, either
+// inside the same container or after it in the enclosing list. The builder keeps the slot of the reference
+// until then; `pre` and `post` put the length of the container on both sides of every capacity a slice goes
+// through (4, 8, 16, 32, 64), so the slot must survive each reallocation. Variants rotate the marked value
+// (string, list, map, integer), a second pending reference to the same marker in the middle of the growth,
+// and a backward reference after the marker.
+func c06GrowthInputs() []c06Input {
+	in := []c06Input{}
+	id := []byte("a")
+	ref := Ev{K: "ref", Data: id}
+	target := func(v int) []Ev {
+		switch v % 4 {
+		case 0:
+			return []Ev{{K: "sa", A: events.ArrayTypeString, Data: []byte("x")}}
+		case 1:
+			return []Ev{{K: "l"}, {K: "pi", N: 1}, {K: "pi", N: 2}, {K: "e"}}
+		case 2:
+			return []Ev{{K: "m"}, {K: "pi", N: 1}, {K: "t"}, {K: "e"}}
+		}
+		return []Ev{{K: "i", I: -7}}
+	}
+	posts := []int{0, 1, 2, 3, 4, 5, 7, 8, 9, 15, 16, 17, 31, 32, 33, 63, 64, 65}
+	n := 0
+	for _, kind := range []string{"list", "node"} {
+		for _, pre := range []int{0, 3} {
+			for _, post := range posts {
+				for _, same := range []bool{true, false} {
+					n++
+					body := []Ev{{K: "l"}}
+					if kind == "list" {
+						body = append(body, Ev{K: "l"})
+					} else {
+						body = append(body, Ev{K: "node"}, Ev{K: "sa", A: events.ArrayTypeString, Data: []byte("v")})
+					}
+					for i := 0; i < pre; i++ {
+						body = append(body, Ev{K: "pi", N: uint64(i)})
+					}
+					body = append(body, ref)
+					second := n%3 == 0 && post > 1
+					for i := 0; i < post; i++ {
+						if second && i == post/2 {
+							body = append(body, ref)
+						} else {
+							body = append(body, Ev{K: "pi", N: uint64(100 + i)})
+						}
+					}
+					marked := append([]Ev{{K: "mk", Data: id}}, target(n)...)
+					if n%5 == 0 {
+						marked = append(marked, ref)
+					}
+					where := "after"
+					if same {
+						where = "same"
+						body = append(body, marked...)
+						body = append(body, Ev{K: "e"})
+					} else {
+						body = append(body, Ev{K: "e"})
+						body = append(body, marked...)
+					}
+					body = append(body, Ev{K: "e"})
+					in = append(in, c06Input{Label: fmt.Sprintf("directed/forward-ref-growth/%s-pre%d-post%d-%s", kind, pre, post, where),
+						Evs: c06WrapDoc(body...), Oracle: true})
+				}
+			}
+		}
+	}
+	// the reference two lists deep, the inner lists finished long before the marker
+	for _, post := range []int{4, 8, 16, 32} {
+		body := []Ev{{K: "l"}, {K: "l"}, {K: "l"}, ref}
+		for i := 0; i < post; i++ {
+			body = append(body, Ev{K: "pi", N: uint64(i)})
+		}
+		body = append(body, Ev{K: "e"}, Ev{K: "e"})
+		for i := 0; i < post; i++ {
+			body = append(body, Ev{K: "t"})
+		}
+		body = append(body, Ev{K: "mk", Data: id})
+		body = append(body, target(post/4)...)
+		body = append(body, Ev{K: "e"})
+		in = append(in, c06Input{Label: fmt.Sprintf("directed/forward-ref-growth/nested-post%d", post), Evs: c06WrapDoc(body...), Oracle: true})
+	}
+	// several pending markers in one growing list, completed in the opposite order
+	for _, post := range []int{2, 4, 8, 16} {
+		ids := [][]byte{[]byte("a"), []byte("b"), []byte("c")}
+		body := []Ev{{K: "l"}}
+		for _, x := range ids {
+			body = append(body, Ev{K: "ref", Data: x})
+			for i := 0; i < post; i++ {
+				body = append(body, Ev{K: "pi", N: uint64(i)})
+			}
+		}
+		for k := len(ids) - 1; k >= 0; k-- {
+			body = append(body, Ev{K: "mk", Data: ids[k]})
+			body = append(body, target(k)...)
+		}
+		body = append(body, Ev{K: "e"})
+		in = append(in, c06Input{Label: fmt.Sprintf("directed/forward-ref-growth/three-markers-post%d", post), Evs: c06WrapDoc(body...), Oracle: true})
+	}
+	// map values: the map grows (and rehashes) between the reference and the marker
+	for _, post := range []int{0, 1, 7, 8, 9, 16, 40} {
+		for _, same := range []bool{true, false} {
+			n++
+			body := []Ev{{K: "l"}, {K: "m"}, {K: "sa", A: events.ArrayTypeString, Data: []byte("r")}, ref}
+			for i := 0; i < post; i++ {
+				body = append(body, Ev{K: "pi", N: uint64(i)}, Ev{K: "pi", N: uint64(100 + i)})
+			}
+			marked := append([]Ev{{K: "mk", Data: id}}, target(n)...)
+			where := "after"
+			if same {
+				where = "same"
+				body = append(body, Ev{K: "sa", A: events.ArrayTypeString, Data: []byte("t")})
+				body = append(body, marked...)
+				body = append(body, Ev{K: "e"})
+			} else {
+				body = append(body, Ev{K: "e"})
+				body = append(body, marked...)
+			}
+			body = append(body, Ev{K: "e"})
+			in = append(in, c06Input{Label: fmt.Sprintf("directed/forward-ref-growth/map-post%d-%s", post, where), Evs: c06WrapDoc(body...), Oracle: true})
+		}
+	}
+	// record fields
+	for _, arity := range []int{1, 2, 5, 9, 17} {
+		n++
+		body := []Ev{{K: "rt", Data: []byte("x")}}
+		for i := 0; i < arity; i++ {
+			body = append(body, Ev{K: "pi", N: uint64(i)})
+		}
+		body = append(body, Ev{K: "e"}, Ev{K: "l"}, Ev{K: "rec", Data: []byte("x")}, ref)
+		for i := 1; i < arity; i++ {
+			body = append(body, Ev{K: "pi", N: uint64(100 + i)})
+		}
+		body = append(body, Ev{K: "e"}, Ev{K: "mk", Data: id})
+		body = append(body, target(n)...)
+		body = append(body, Ev{K: "e"})
+		in = append(in, c06Input{Label: fmt.Sprintf("directed/forward-ref-growth/record-arity%d", arity), Evs: c06WrapDoc(body...), Oracle: true})
+	}
+	return in
+}
+
 func c06FullOpts() GenOpts { return DefaultGenOpts() }
 
 // c06Inputs: the deterministic input list of a run (same in the parent and in the workers).
@@ -1650,6 +1828,14 @@ func c06Inputs(tier string, seed int64) []c06Input {
 		}
 		in = append(in, c06Input{Label: "malformed", Evs: full.Mutate(base)})
 	}
+	// forward references whose container keeps growing until the marker completes: every combination of
+	// container kind, position and growth across the slice capacities, then generated trees of the same kind
+	in = append(in, c06GrowthInputs()...)
+	q.fwd, q.wide = true, true
+	for i := 0; i < pick(120, 3000); i++ {
+		in = append(in, c06Input{Label: "fragment-forward-refs-wide", Evs: q.document(), Oracle: true})
+	}
+	q.wide = false
 	return in
 }
 
@@ -1703,7 +1889,7 @@ func c06Process(idx int, in c06Input) c06Result {
 	res.NonTriv = len(in.Evs) > 3
 	if strings.HasPrefix(in.Label, "fragment") || strings.HasPrefix(in.Label, "directed/ok/") {
 		// backward references only: the partial theorem's fragment
-		if rts, t, ok := c06CoqTree(in.Evs); ok && in.Label != "fragment-forward-refs" && in.Label != "directed/ok/forward-refs" {
+		if rts, t, ok := c06CoqTree(in.Evs); ok && !strings.HasPrefix(in.Label, "fragment-forward-refs") && in.Label != "directed/ok/forward-refs" {
 			urls, times := c06LibTables(in.Evs)
 			res.FragTerm = cApp("FragCase", cEvs(in.Evs), rts, t, urls, times, cBool(valid))
 		}
@@ -1801,7 +1987,7 @@ func c06Worker(tier, seedS, startS string) {
 // ---------------------------------------------------------------------------
 
 func runC06(c *Ctx) {
-	c.Rep.Rule = "inputs: directed streams (one per construct and per known defect class), generated trees of the fragment the builder handles (scalars, strings, numeric arrays, lists, maps, nodes, markers, backward and forward references, timestamps), NewEvGen streams with every option, mutated streams (only for the correspondence); each rules-valid stream is encoded as CBE and as CTE and the property is evaluated on both documents; a case is non-trivial when it has a value; distinct = distinct event streams"
+	c.Rep.Rule = "inputs: directed streams (one per construct and per known defect class), generated trees of the fragment the builder handles (scalars, strings, numeric arrays, lists, maps, nodes, markers, backward and forward references, timestamps), forward references in lists / node children / maps / records that grow by 0..65 elements (across the slice capacities 4, 8, 16, 32, 64) before the marker completes inside or after them (every combination, then generated trees with such long containers), NewEvGen streams with every option, mutated streams (only for the correspondence); each rules-valid stream is encoded as CBE and as CTE and the property is evaluated on both documents; a case is non-trivial when it has a value; distinct = distinct event streams"
 	inputs := c06Inputs(c.Tier, c.Seed)
 	// keep c.Rng in step for anything that follows
 	_ = c.Rng.Int63()
